@@ -115,8 +115,10 @@ class Impl:
             FilterSyntaxError = C.FilterSyntaxError
 
             text = "".join(chr(c) for c in j["cps"])
+            import p_filter as _PF
+
             try:
-                f = sansldap.LDAPFilter.from_string(text)
+                f = _PF.guarded(lambda: sansldap.LDAPFilter.from_string(text))
             except FilterSyntaxError as e:
                 return {"err": {"off": e.offset, "len": e.length}}
             except BaseException as e:  # noqa: BLE001
